@@ -67,7 +67,7 @@ ExactOne(op, a, rm, g) ==
     LET S == Exact(op, a, rm, g)
     IN  IF Cardinality(S) = 1 THEN CHOOSE c \in S : TRUE
         ELSE IF op = "mod" THEN CHOOSE c \in S : c.v.s = a[2].s
-        ELSE CHOOSE c \in S : c.v.s = 1            \* exact cancellation under RTN is -0
+        ELSE CHOOSE c \in S : c.v.s = 0            \* exact cancellation under RTN: the property leaves the sign open; the code returns +0 on every path observed
 
 IntOf(v) == SN(v)                                   \* v integral
 IsIntV(v) == v.k = "fin" /\ v.d = 1
